@@ -421,12 +421,46 @@ def rule_roles(program, ctx):
         ctx.bad(finding_func(P, rid, g, "get_auth_roles no longer reads auth.roles by pubkey with the default-roles fallback", text="def get_auth_roles(...)"))
 
 
+def rule_config(program, ctx, prop=P, rid="C14.config"):
+    ctx.rule(
+        rid,
+        "Authenticator.parse_options: the role set of each configured action is `set(roles)` of the configured value itself (a role string such as 'ws', a Role's value, or a "
+        "list of role letters) - never the set of characters of its text rendering (str()/repr()/format of a list adds brackets, quotes, commas and blanks as roles, which any "
+        "assigned role string containing such a character then matches)",
+        floor=1,
+    )
+    fn = program.func("nostr_relay.auth:Authenticator.parse_options")
+    stores = [s for s in walk_no_nested(fn) if isinstance(s, ast.Assign) and isinstance(s.targets[0], ast.Subscript) and dotted(s.targets[0].value) == "actions"]
+    if not stores:
+        ctx.bad(finding_func(prop, rid, fn, "parse_options no longer stores the configured roles per action: every action keeps the default roles", text="def parse_options(...) :: actions"))
+        return
+    for st in stores:
+        v = st.value
+        inner = v.args[0] if isinstance(v, ast.Call) and call_name(v) in ("set", "frozenset") and len(v.args) == 1 else None
+        good = False
+        if inner is not None:
+            # the argument is the loop's roles variable (possibly re-bound to roles.value), optionally case-folded by a str method
+            base = inner
+            if isinstance(base, ast.Call) and isinstance(base.func, ast.Attribute) and base.func.attr in ("lower", "upper", "strip") and not base.args:
+                base = base.func.value
+            good = isinstance(base, (ast.Name, ast.Attribute)) and not any(isinstance(c, ast.Call) for c in ast.walk(base))
+        if good:
+            ctx.ok(rid, st, f"{norm(st, 70)}")
+        else:
+            ctx.bad(finding_at(prop, rid, st, f"the role set of an action is built as `{ast.unparse(v)[:60]}`: for a list-valued configuration this is the character set of the list's text "
+                               "(bracket, quote, comma, blank become roles), so a role string containing one of them is authorised"))
+
+
 def run(program, ctx):
+    from ..lib import rule_awaited
+
+    rule_awaited(program, ctx, P, ANCHORS)
     rule_roles(program, ctx)
     rule_save(program, ctx)
     rule_query(program, ctx)
     rule_output(program, ctx)
     rule_can_do(program, ctx)
+    rule_config(program, ctx)
     ctx.not_decided += [
         "role read-back equals last write (SQL engine semantics / service-event replacement)",
         "the full action->roles configuration matrix as behaviour",
